@@ -456,9 +456,12 @@ impl BtpInner {
             .is_ack_due(Instant::now(), self.ack_timeout_secs as _)
         {
             let len = self.session.prep_tx_data(&[], &mut 0, buf)?;
-            assert!(len > 0);
 
-            return Ok(len);
+            // An ACK can be due while the peer's window is closed (all slots used and not
+            // acknowledged yet); it then goes out as soon as the peer re-opens the window
+            if len > 0 {
+                return Ok(len);
+            }
         }
 
         Ok(0)
